@@ -36,6 +36,7 @@ def getAnswer (j : Json) : Except String Answer := do
       | none => pure none
     return .rpcError (← j.getObjValAs? Int "code") msg
   | "silence" => return .silence
+  | "closed" => return .closed
   | _ => throw s!"unknown answer kind {k}"
 
 def getRequested (j : Json) : Except String Requested := do
@@ -54,6 +55,7 @@ def outcomeJson : Outcome → List (String × Json)
   | .timedOut => [("outcome", "timeout")]
   | .noVersions => [("outcome", "noversions")]
   | .blocked => [("outcome", "blocked")]
+  | .transportFailed => [("outcome", "transport")]
 
 def evJson : Ev → Json
   | .sent (.initialize v) => Json.mkObj [("w", "initialize"), ("v", Json.str v)]
@@ -69,7 +71,12 @@ def observableW (t : List Ev) : List Ev :=
 def getWriteSide (j : Json) : Except String WriteSide :=
   match optField j "take" with
   | none => pure .never
+  | some (.str "refuses") => pure .refuses
   | some v => .accepts <$> v.getNat?
+
+def trackedJson : Tracked → Json
+  | some (v, mode) => Json.mkObj [("v", Json.str v), ("batching", Json.bool mode)]
+  | none => Json.null
 
 def traceJson (t : List Ev) : Json := Json.arr (t.map evJson).toArray
 
@@ -78,8 +85,13 @@ def handle (j : Json) : Except String Json := do
   match op with
   | "server" =>
     let r ← getRequested (← j.getObjVal? "req")
-    let rep := handleInitialize Verif.Gen.Versions.supported Verif.Gen.Versions.handlerDefault r
-    return Json.mkObj [("answered", Json.str rep.answered), ("recorded", Json.str rep.recorded)]
+    -- "choice": the version the handler under test fell back to (see `serverAnswerG`); absent = the code's own choice
+    let rep := match optField j "choice" with
+      | some (.str c) => handleInitializeG Verif.Gen.Versions.supported c r
+      | _ => handleInitialize Verif.Gen.Versions.supported Verif.Gen.Versions.handlerDefault r
+    let own := handleInitialize Verif.Gen.Versions.supported Verif.Gen.Versions.handlerDefault r
+    return Json.mkObj [("answered", Json.str rep.answered), ("recorded", Json.str rep.recorded),
+      ("code_answer", Json.str own.answered)]
   | "serverseq" =>
     let arr ← j.getObjValAs? (Array Json) "steps"
     let steps ← arr.toList.mapM (fun st => do
@@ -87,8 +99,11 @@ def handle (j : Json) : Except String Json := do
       let carry := match optField st "carry" with
         | some c => c.getNat?.toOption
         | none => none
-      pure ((r, carry) : InitStep))
-    let (os, _) := runInits Verif.Gen.Versions.supported Verif.Gen.Versions.handlerDefault [] steps
+      let choice := match optField st "choice" with
+        | some (.str c) => c
+        | _ => (handleInitialize Verif.Gen.Versions.supported Verif.Gen.Versions.handlerDefault r).answered
+      pure ((r, carry, choice) : InitStepG))
+    let (os, _) := runInitsG Verif.Gen.Versions.supported [] steps
     return Json.mkObj [("steps", Json.arr (os.map (fun (a, rec) =>
       Json.mkObj [("answered", Json.str a),
         ("recorded", match rec with | some v => Json.str v | none => Json.null)])).toArray)]
@@ -107,10 +122,22 @@ def handle (j : Json) : Except String Json := do
     let ans ← getAnswer (← j.getObjVal? "ans")
     let (o, t) := clientInitW sup pref ans (← getWriteSide j)
     return Json.mkObj (outcomeJson o ++ [("trace", traceJson (observableW t))])
+  | "clientseq" =>
+    let arr ← j.getObjValAs? (Array Json) "steps"
+    let steps ← arr.toList.mapM (fun st => do
+      let sup ← getSup st
+      let pref ← getPref st
+      let ans ← getAnswer (← st.getObjVal? "ans")
+      pure ((sup, pref, ans) : ClientStep))
+    let rs := runClientSeq parseDate none steps
+    return Json.mkObj [("steps", Json.arr (rs.map (fun (o, t, tr) =>
+      Json.mkObj (outcomeJson o ++ [("trace", traceJson t), ("tracked", trackedJson tr)]))).toArray)]
   | "handshake" =>
     let sup ← getSup j
     let pref ← getPref j
-    let (o, t, s) := handshake sup pref Verif.Gen.Versions.supported Verif.Gen.Versions.handlerDefault
+    let (o, t, s) := match optField j "choice" with
+      | some (.str c) => handshakeG sup pref Verif.Gen.Versions.supported c
+      | _ => handshake sup pref Verif.Gen.Versions.supported Verif.Gen.Versions.handlerDefault
     return Json.mkObj (outcomeJson o ++ [("trace", traceJson t),
       ("session", match s with | some v => Json.str v | none => Json.null)])
   | "batching" =>
